@@ -10,6 +10,8 @@
 (*   opaque      not MIME-structured: BODY[TEXT] itself is the body content  *)
 (*   sentLeaves, leaves   leaf parts [ct, body] of sent / of BODY[]         *)
 (*   sentFields, fields   header fields of sent / of the fetched BODY[]     *)
+(*   sentFieldsNoWS, fieldsNoWS   the same with all spaces removed (only for  *)
+(*               the diagnosis "differs in white space only")                *)
 (*   secs        [name, a, b, twice, parts] per section: first and second   *)
 (*               fetch and the partial ranges [o, c, present, got, ref]     *)
 (*   rfc_a, rfc_b  [ok, size, full, header, text]: RFC822.SIZE, RFC822,     *)
